@@ -292,8 +292,29 @@ optGroup H5Group::openOptGroup(const std::string &name) {
 }
 
 
+// Unlink everything below a group whose last link is about to go: as long as a handle to the
+// group (or to a group inside it) is open somewhere HDF5 keeps the object, and the links it
+// contains would keep the entities they point to alive.
+static void unlinkContents(H5Group &group) {
+    for (ndsize_t i = group.objectCount(); i > 0; i--) {
+        std::string child_name = group.objectName(i - 1);
+        if (group.hasGroup(child_name)) {
+            H5Group child = group.openGroup(child_name, false);
+            if (child.referenceCount() == 1) {
+                unlinkContents(child);
+            }
+        }
+        group.deleteLink(child_name);
+    }
+}
+
+
 void H5Group::removeGroup(const std::string &name) {
     if (hasGroup(name)) {
+        H5Group group = openGroup(name, false);
+        if (group.referenceCount() == 1) {
+            unlinkContents(group);
+        }
         HErr res = H5Gunlink(hid, name.c_str());
         res.check("H5Group::removeGroup(): Could not unlink group");
     }
@@ -326,6 +347,8 @@ bool H5Group::removeAllLinks(const std::string &name) {
 
     if (hasGroup(name)) {
         H5Group group      = openGroup(name, false);
+
+        unlinkContents(group);
 
         std::string gname = group.name();
 
